@@ -1130,14 +1130,8 @@ func zipInnerSubscription[T any](subscriberCtx context.Context, obs Observable[T
 					onUpdate(ctx)
 				},
 				func(ctx context.Context, err error) {
-					verifPoint("operator_combining:zipInnerSubscription:lock#1", nil)
-					mu.Lock()
-
-					*completed = true
-
-					mu.Unlock()
-					verifPoint("operator_combining:zipInnerSubscription:unlocked#1", nil)
-
+					// A failed source is not a completed one: marking it completed here let a concurrent
+					// onUpdate of another source complete the stream before this error was delivered.
 					destination.ErrorWithContext(ctx, err)
 					subscriptions.Unsubscribe()
 				},
